@@ -747,4 +747,7 @@ def check(ctx, rep):
 
     # a refactoring must not change the program's string values: text decoded under one codec and written under another does
     rule_codec_agree(ctx, rep)
+    from .c02 import rule_removal_kinds
+
+    rule_removal_kinds(ctx, rep)
     rep.not_covered += ["observational equivalence over programs and runtime values", "SQL parameterisation returning the same rows", "tuple-valued names producing nested tuples in combine_args"]
